@@ -65,6 +65,11 @@ def r1_provenance(ctx, rep):
                       is_name(c.func.value, lst)]
             if fresh and len(gathers) == 1 and not others:
                 src = gathers[0].args[0]
+                if isinstance(src, ast.Name):
+                    # a temporary holding the looked-up layer
+                    vals_ = [x for x in local_assignments(init.node).get(src.id, []) if isinstance(x, ast.AST)]
+                    if len(local_assignments(init.node).get(src.id, [])) == 1 and len(vals_) == 1:
+                        src = vals_[0]
                 if isinstance(src, ast.Call) and call_name(src) == 'layer_from_name' and \
                         len(src.args) == 1 and dotted(src.args[0]) in ps:
                     ok = True
